@@ -15,6 +15,14 @@ def header_flag():
     return ["-DVSPECTRAL_HASH=\"%s\"" % hashlib.sha256(open(p, "rb").read()).hexdigest()[:12]]
 
 
+def harness_name(base):
+    """cache name of a harness binary: runs against a scratch copy (TAPKEE_REPO) get their own name, so that they do
+    not evict the binary built from /repo (vlib keeps one binary per name)"""
+    if vlib.REPO == "/repo":
+        return base
+    return "%s_scratch_%s" % (base, hashlib.sha256(vlib.REPO.encode()).hexdigest()[:8])
+
+
 def fr(x):
     """exact text of a Fraction: integer or a/b"""
     x = Fraction(x)
